@@ -308,10 +308,10 @@ def make_repo(R, E, C, cands: List[Any], unreadable, allow_pre: bool):
             super().__init__("mem", allow_prerelease=allow_pre)
             self.resolved: List[str] = []
 
-        def get_candidates(self, req):
+        def get_candidates(self, req=None, *args, **kwargs):
             return list(cands)
 
-        def resolve_candidate(self, candidate):
+        def resolve_candidate(self, candidate, *args, **kwargs):
             self.resolved.append(candidate.filename)
             if candidate.filename in bad:
                 raise E.MetadataError(candidate.name, candidate.version, ValueError("scripted"))
@@ -331,6 +331,7 @@ def run_impl(mods, case: Dict[str, Any]) -> Tuple[str, List[Any], Any]:
     except E.NoCandidateException:
         obs = "NC"
     except Exception as ex:  # any other exception class is an observation of its own
+        common.reraise_harness_fault(ex)     # ... unless it is MemRepo's (the harness's) own error
         obs = "EXC " + type(ex).__name__
     return obs, cands, repo
 
